@@ -153,14 +153,14 @@ def _grid(en):
 FIELDS = ('vorticity', 'divergence', 'temperature_variation', 'log_surface_pressure')
 
 
-def _run_primitive(en, g, state, oro, moist=False, method='explicit_terms'):
+def _run_primitive(en, g, state, oro, moist=False, method='explicit_terms', with_time=False):
   from dinosaur import primitive_equations as pe, sigma_coordinates as sc
   Rg, grav, kappa = en.real('ideal_gas_constant'), en.real('gravity'), en.real('kappa')
   specs = E.Obj(R=Rg, ideal_gas_constant=Rg, g=grav, kappa=kappa, angular_velocity=en.real('angular_velocity'))
   if moist:
     specs.R_vapor, specs.Cp, specs.Cp_vapor = en.real('R_vapor'), en.real('Cp'), en.real('Cp_vapor')
   coords = E.Obj(horizontal=g, vertical=E.Obj(layers=en.int('layers'), layer_thickness=Marker('thickness')), dycore_sharding=None)
-  self = E.Obj(class_ref=pe.MoistPrimitiveEquations if moist else pe.PrimitiveEquations, coords=coords, orography=oro, T_ref=TREF,
+  self = E.Obj(class_ref=pe.MoistPrimitiveEquations if moist else (pe.PrimitiveEquationsWithTime if with_time else pe.PrimitiveEquations), coords=coords, orography=oro, T_ref=TREF,
                include_vertical_advection=True, vertical_advection=sc.centered_vertical_advection, physics_specs=specs, vertical_matmul_method='dense', reference_temperature=TREF,
                _t_omega_over_sigma_sp=E.SymCallable(lambda en_, t, gt, v: W.TOMEGA(t, gt, v), '_t_omega_over_sigma_sp (column contract: C05)'))
   kind, out = en.invoke(en.getattr(self, method), state)
@@ -169,7 +169,7 @@ def _run_primitive(en, g, state, oro, moist=False, method='explicit_terms'):
   return out
 
 
-def primitive_equivariance_contract(en: E.Engine, moist=False, method='explicit_terms'):
+def primitive_equivariance_contract(en: E.Engine, moist=False, method='explicit_terms', with_time=False):
   W._neg_fix(en)
   g, r = _grid(en)
   C = lambda nm: z3.Const(nm, Fld)
@@ -177,17 +177,20 @@ def primitive_equivariance_contract(en: E.Engine, moist=False, method='explicit_
   x = {n: C(n) for n in names}
   qname = 'specific_humidity' if moist else 'q'
   mk = lambda d, sign_z: mkstate(vorticity=W.NEG(d['zeta']) if sign_z < 0 else d['zeta'], divergence=d['delta'], temperature_variation=d['T'], log_surface_pressure=d['lnps'],
-                              tracers={qname: d['q']}, **({'sim_time': en.real('sim_time')} if moist else {}))
+                              tracers={qname: d['q']}, **({'sim_time': en.real('sim_time')} if (moist or with_time) else {}))
   if moist:
     en.assume(z3.And(z3.Real('Cp') > 0, z3.Real('ideal_gas_constant') > 0))
   en.cover('requires: radius > 0')
   ORO = W.ORO
-  fx = _run_primitive(en, g, mk(x, +1), ORO, moist, method)
+  fx = _run_primitive(en, g, mk(x, +1), ORO, moist, method, with_time)
+  if moist or with_time:
+    en.ensure(f'{method}: the tendency of the carried simulation time is the constant ' + ('1' if method == 'explicit_terms' else '0'),
+              E._real(fx.sim_time) == (1 if method == 'explicit_terms' else 0))
   alg = ML.Algebra(bilinear={'vertical_advection'}, opaque={'t_omega_over_sigma_sp', 'nodal_reciprocal'})
   for sym, pre, zsign, op_sign, coriolis_img in (('mirror', 'm_', -1, {'cos_lat_d_dlat': -1, 'sec_lat_d_dlat_cos2': -1}, W.NEG(SINLAT)), ('rotation', 'r_', +1, {}, SINLAT)):
     tx = {n: C(pre + n) for n in names}
     oro_t = C(pre + 'orography')
-    ftx = _run_primitive(en, g, mk(tx, zsign), oro_t, moist, method)
+    ftx = _run_primitive(en, g, mk(tx, zsign), oro_t, moist, method, with_time)
     atom_map = {n: tx[n] for n in names}
     atom_map.update({'orography': oro_t, 'sin_lat': coriolis_img, 'sec2_lat': W.SEC2F, 'sigma_half_levels': SIGH, 'T_ref': TREF, 'nodal_one': ONE})
     outs = [(f, getattr(fx, f), getattr(ftx, f)) for f in FIELDS] + [(f'tracer {qname}', fx.tracers[qname], ftx.tracers[qname])]
@@ -523,6 +526,10 @@ def clauses():
       Clause('smt:PrimitiveEquations.explicit_terms equivariant under the equatorial mirror and under rotations as an operator expression (all fields, sizes, level counts)', 'smt',
              [P + 'PrimitiveEquations.explicit_terms', P + 'compute_diagnostic_state', P + 'PrimitiveEquations.curl_and_div_tendencies', 'dinosaur.spherical_harmonic.get_cos_lat_vector'],
              rc(primitive_equivariance_contract, 10), group='pyvc'),
+      Clause('smt:PrimitiveEquationsWithTime.explicit_terms equivariant under the equatorial mirror and under rotations; its simulation-time tendency is the constant 1 (operator expression, all fields, sizes)', 'smt',
+             [P + 'PrimitiveEquationsWithTime.explicit_terms', P + 'PrimitiveEquationsWithTime._time_and_state'], rc(primitive_equivariance_contract, 10, with_time=True), group='pyvc'),
+      Clause('smt:PrimitiveEquationsWithTime.implicit_terms equivariant; its simulation-time tendency is the constant 0 (operator expression, all fields, sizes)', 'smt',
+             [P + 'PrimitiveEquationsWithTime.implicit_terms'], rc(primitive_equivariance_contract, 10, with_time=True, method='implicit_terms'), group='pyvc'),
       Clause('smt:PrimitiveEquations.implicit_terms equivariant under the equatorial mirror and under rotations as an operator expression (all fields, sizes, level counts)', 'smt',
              [P + 'PrimitiveEquations.implicit_terms'], rc(primitive_equivariance_contract, 10, method='implicit_terms'), group='pyvc'),
       Clause('smt:MoistPrimitiveEquations.explicit_terms (virtual temperature, humidity corrections of vorticity and divergence) equivariant under the equatorial mirror and under rotations as an operator expression', 'smt',
